@@ -67,8 +67,9 @@ WriteLocality ==
              LET old == db[e.c].tables[e.t]
                  new == db'[e.c].tables[e.t]
                  k   == IF e.op = "PutItem" THEN e.item ELSE e.key
-             IN /\ { i \in old.items : ~KeyEq(old, i, k) } = { i \in new.items : ~KeyEq(new, i, k) }
-                /\ new.idx = old.idx /\ new.defs = old.defs
+             IN IF ~KeyTypeOK(old, k) THEN new = old
+                ELSE /\ { i \in old.items : ~KeyEq(old, i, k) } = { i \in new.items : ~KeyEq(new, i, k) }
+                     /\ new.idx = old.idx /\ new.defs = old.defs
     ]_gvars
 \* a read never changes the state; a failure never changes the state (C08, C15 at design level)
 ReadsPure ==
